@@ -29,9 +29,19 @@ pub struct ProbeReader {
     interrupt: bool,
     toggle: bool,
     fail_at: i64,
+    /// calls back into the library from inside read() (once), comparing with `nested_ref`
+    reent: bool,
+    /// panics instead of returning an error at `fail_at`
+    panic_fail: bool,
+    nested_ref: Vec<u8>,
+    nested_bad: bool,
 }
 impl Read for ProbeReader {
     fn read(&mut self, buf: &mut [u8]) -> io::Result<usize> {
+        if self.reent {
+            self.reent = false;
+            self.nested_bad = nested_calls() != self.nested_ref;
+        }
         if self.interrupt {
             self.toggle = !self.toggle;
             if self.toggle {
@@ -39,6 +49,9 @@ impl Read for ProbeReader {
             }
         }
         if self.fail_at >= 0 && self.pos as i64 >= self.fail_at {
+            if self.panic_fail {
+                panic!("injected reader panic");
+            }
             return Err(io::Error::new(io::ErrorKind::Other, "injected read fault"));
         }
         let mut n = buf.len().min(self.data.len() - self.pos);
@@ -60,9 +73,38 @@ pub struct ProbeWriter {
     chunk: usize,
     fail_at: i64,
     toggle: bool,
+    reent: bool,
+    panic_fail: bool,
+    nested_ref: Vec<u8>,
+    nested_bad: bool,
 }
+
+/// Library calls made from inside a caller-supplied reader / writer (the library must not hold anything across the
+/// calls it makes into caller code): serialisation and deserialisation of fixed values of every SerDes type.
+fn nested_calls() -> Vec<u8> {
+    let mut v: Vec<u8> = vec![];
+    let one12 = <Fq12 as ff_zeroize::Field>::one();
+    let _ = one12.serialize(&mut v, true);
+    let _ = <Fr as ff_zeroize::Field>::one().serialize(&mut v, true);
+    let _ = <G1 as pairing_plus::CurveProjective>::one().serialize(&mut v, true);
+    let _ = <G2Affine as CurveAffine>::one().serialize(&mut v, false);
+    {
+        let mut r = &v[..];
+        let a = Fq12::deserialize(&mut r, true).map(|x| x == one12).unwrap_or(false);
+        let b = Fr::deserialize(&mut r, true).is_ok();
+        let c = G1::deserialize(&mut r, true).is_ok();
+        let d = G2Affine::deserialize(&mut r, false).is_ok();
+        v.extend_from_slice(&[a as u8, b as u8, c as u8, d as u8, r.len() as u8]);
+    }
+    v
+}
+
 impl Write for ProbeWriter {
     fn write(&mut self, buf: &[u8]) -> io::Result<usize> {
+        if self.reent {
+            self.reent = false;
+            self.nested_bad = nested_calls() != self.nested_ref;
+        }
         // chunk sizes >= 1000 select the "interrupting" writer: every other call reports ErrorKind::Interrupted
         // (a transient condition that write_all retries), the remaining calls accept chunk - 1000 bytes (0 = all)
         if self.chunk >= 1000 {
@@ -72,6 +114,9 @@ impl Write for ProbeWriter {
             }
         }
         if self.fail_at >= 0 && self.data.len() as i64 >= self.fail_at {
+            if self.panic_fail {
+                panic!("injected writer panic");
+            }
             return Err(io::Error::new(io::ErrorKind::Other, "injected write fault"));
         }
         let mut n = buf.len();
@@ -91,8 +136,16 @@ impl Write for ProbeWriter {
 }
 
 fn ser<T: SerDes>(v: &T, compressed: bool, chunk: usize, fail_at: i64) -> Out {
-    let mut w = ProbeWriter { data: vec![], chunk, fail_at, toggle: false };
+    // chunk codes: +2000 = the writer calls back into the library on its first call, +4000 = it panics (instead of
+    // failing) at fail_at; the remainder is the plain chunk code
+    let panic_fail = chunk >= 4000;
+    let chunk = chunk % 4000;
+    let reent = chunk >= 2000;
+    let chunk = chunk % 2000;
+    let nested_ref = if reent { nested_calls() } else { vec![] };
+    let mut w = ProbeWriter { data: vec![], chunk, fail_at, toggle: false, reent, panic_fail, nested_ref, nested_bad: false };
     match v.serialize(&mut w, compressed) {
+        Ok(()) if w.nested_bad => Out::Err("nested-calls-differ".into()),
         Ok(()) => Out::Ok(vec![Val::Bytes(w.data)]),
         Err(_) => Out::Err(format!("io:{}", w.data.len())),
     }
@@ -112,8 +165,13 @@ fn deser<T: SerDes>(
         interrupt: mode & 2 != 0,
         toggle: false,
         fail_at,
+        reent: mode & 8 != 0,
+        panic_fail: mode & 16 != 0,
+        nested_ref: if mode & 8 != 0 { nested_calls() } else { vec![] },
+        nested_bad: false,
     };
     match T::deserialize(&mut r, compressed) {
+        Ok(_) if r.nested_bad => Out::Err("nested-calls-differ:0".into()),
         Ok(v) => Out::Ok(vec![wrap(v), Val::Int(r.pos as i64)]),
         Err(e) => Out::Err(format!("{:?}:{}", e.kind(), r.pos)),
     }
